@@ -2,8 +2,6 @@
 
 package main
 
-import "github.com/a-h/parse"
-
 // Without the verif hook in the repository under test no loop-top events exist; hangs are then
 // confirmed by `c06 single` (long timeout + goroutine dumps).
 
@@ -22,6 +20,6 @@ type noProgress struct {
 
 type recorder struct{}
 
-func attach(pi *parse.Input, n int, record bool) *recorder { return nil }
+func attach(n int, record bool) *recorder { return nil }
 
-func detach(pi *parse.Input, r *recorder) []topEvent { return nil }
+func detach(r *recorder) ([]topEvent, *topEvent) { return nil, nil }
